@@ -14,6 +14,7 @@ use crate::vf::engine::*;
 use crate::vf::gen::*;
 use crate::vf::gen_app::*;
 use crate::vf::session::*;
+use crate::vf::shadow::{shadow_opt, with_shadow, Shadow};
 use crate::vf::sut::*;
 use crate::vf::traffic::*;
 use crate::vf::util::*;
@@ -51,6 +52,14 @@ pub struct Case {
     pub sport: u16,
     pub dport: u16,
     pub ops: Vec<Op>,
+    /// bytes behind the end of the IP packet on every TCP frame of the case's own flows (Ethernet
+    /// padding / trailer): not part of any segment
+    #[serde(default)]
+    pub trailer: Option<Hex>,
+    /// sibling traffic before every frame (vf/shadow.rs); not used when the connection table is
+    /// being counted (C09)
+    #[serde(default)]
+    pub shadow: Option<Shadow>,
 }
 
 fn small_pay() -> BoxedStrategy<Pay> {
@@ -97,7 +106,15 @@ pub fn op(good: u32, noise: u32, syn: u32) -> BoxedStrategy<Op> {
 }
 
 pub fn case_strategy(maxops: usize, good: u32, noise: u32, syn: u32) -> impl Strategy<Value = Case> {
-    (scenario_quiet(Fam::Any), 2u8..=5, 1024u16..30000, port(), vec(op(good, noise, syn), 1..=maxops)).prop_map(|(scn, nflows, sport, dport, ops)| Case { scn, nflows, sport, dport, ops })
+    (case_strategy0(maxops, good, noise, syn), prop::option::weighted(0.25, prop_oneof![3 => vec(any::<u8>(), 1..=6), 2 => (1usize..=46, any::<u8>()).prop_map(|(n, b)| vec![b; n]), 1 => vec(any::<u8>(), 1..200)].prop_map(Hex)), shadow_opt()).prop_map(|(mut c, trailer, sh)| {
+        c.trailer = trailer;
+        c.shadow = sh;
+        c
+    })
+}
+
+fn case_strategy0(maxops: usize, good: u32, noise: u32, syn: u32) -> impl Strategy<Value = Case> {
+    (scenario_quiet(Fam::Any), 2u8..=5, 1024u16..30000, port(), vec(op(good, noise, syn), 1..=maxops)).prop_map(|(scn, nflows, sport, dport, ops)| Case { scn, nflows, sport, dport, ops, trailer: None, shadow: None })
 }
 
 pub fn flows_of(c: &Case) -> Vec<Flow> {
@@ -141,12 +158,28 @@ pub struct Mode {
 }
 
 pub fn run_case(c: &Case, st: &mut Stats, mode: &Mode) -> Check {
+    if mode.check_table {
+        return run_case0(c, st, mode);
+    }
+    with_shadow(&c.shadow, st, |st| run_case0(c, st, mode))
+}
+
+fn run_case0(c: &Case, st: &mut Stats, mode: &Mode) -> Check {
     Sut::reset();
     st.eval();
     let cfg = cfg_of(c);
     let sut = Sut::new(&cfg);
     let flows = flows_of(c);
     let n = flows.len();
+    let padded = |mut fr: Vec<u8>| -> Vec<u8> {
+        if let Some(t) = &c.trailer {
+            fr.extend_from_slice(t);
+        }
+        fr
+    };
+    if c.trailer.is_some() {
+        st.class("frames-with-ethernet-trailer");
+    }
     let mut cookies = Vec::new();
     for f in &flows {
         match learn_cookie(&sut, f, 4242) {
@@ -197,7 +230,7 @@ pub fn run_case(c: &Case, st: &mut Stats, mode: &Mode) -> Check {
                 if !pb.is_empty() {
                     st.class("op:syn-with-payload");
                 }
-                let fr = tcp_frame(&flows[fi].net, &TcpH::new(flows[fi].sport, flows[fi].dport, *seq, 0, *flags), &pb);
+                let fr = padded(tcp_frame(&flows[fi].net, &TcpH::new(flows[fi].sport, flows[fi].dport, *seq, 0, *flags), &pb));
                 let out = sut.frame(&fr);
                 st.class("op:syn");
                 unvalidated_frames += 1;
@@ -220,7 +253,7 @@ pub fn run_case(c: &Case, st: &mut Stats, mode: &Mode) -> Check {
                 if *opt_words > 0 {
                     h.options = vec![1u8; *opt_words as usize * 4];
                 }
-                let fr = tcp_frame(&fl.net, &h, &p);
+                let fr = padded(tcp_frame(&fl.net, &h, &p));
                 let out = sut.frame(&fr);
                 if let Out::Panic(pn) = &out {
                     return Err(Failure::keyed(pn.key(), format!("panic on data segment: {} {}", pn.file, pn.msg)));
@@ -270,7 +303,7 @@ pub fn run_case(c: &Case, st: &mut Stats, mode: &Mode) -> Check {
             }
             Op::FinAck { f, seq, ack } => {
                 let fi = *f as usize % n;
-                let fr = flows[fi].seg(*seq, *ack, F_FIN | F_ACK, &[]);
+                let fr = padded(flows[fi].seg(*seq, *ack, F_FIN | F_ACK, &[]));
                 let out = sut.frame(&fr);
                 st.class("op:fin-ack");
                 unvalidated_frames += 1;
